@@ -12,89 +12,84 @@ Definition show_fres (r : fres) : string :=
   end.
 Definition check (rs : list rune) : string := digest (show_fres (format_res rs)).
 Definition full (rs : list rune) : string := show_fres (format_res rs).
-Eval vm_compute in ("<<<M165>>>" ++ check (runes_of_ascii "packet falsey { char[7
-    ]
-Foo @calculatedFrom( ""CRC32"" ) , @tag(
-    //
-    10)	u8 Packet`" ++ [233]%N ++ runes_of_ascii "` ,repeat  stringy
-,
-@lengthOf( // a // b
-float)tag { repeat
-    u8x {
-int16 charz@lengthOf(trueish ) , //	t
-repeat  string calculatedFrom,
-charz @calculatedFrom(  ""a\""b""
-)	`line1
-line2`
-,
-},u64
-    MetaDataX @calculatedFrom( """ ++ [128512]%N ++ runes_of_ascii """
-    ) `" ++ [233]%N ++ runes_of_ascii "`
-    ,rootA
-    // packet A { u8 x, }
-    {
-    repeat	u64 BodyLength
-`" ++ [233]%N ++ runes_of_ascii "` , pack @calculatedFrom( //x
-""{,}"" )
-    `" ++ [28040; 24687; 31867; 22411]%N ++ runes_of_ascii "` ,repeat // c
-x charz,
-},
-    // a // b
-    char[] packetx, }	, // `tick` ""quote"" 'q'
-calculatedFrom , u x_y_z
-,repeat	int	i64_ ,@leftPad (
-    ' '
-)u32 T @calculatedFrom( ""{,}"" )
-, repeat
-    metadata , } root packet
-chars
-{ char[	65535
-]  pack @lengthOf( As ) `tab	here` , char[
-255] msg_type `// not a comment`
-    ,@calculatedFrom(
-    ""// no comment"" ) @tag( //	t
-0 ) @tag(10 ) repeat Header {
-    char[]
-// @lengthOf(
-// " ++ [27880; 37322]%N ++ runes_of_ascii "
-i64_,repeat T//x
-`` ,match uint8x	as i64_ {
-00// `tick` ""quote"" 'q'
-: _x ,	65535: //
-Z9_,
-""1""
-: u8x ,
-007 : Z9_
-, 255
-:
-matchKey
-""1"" :
-crc , } , } ,
-    @calculatedFrom(	""packet""	) match int as x_y_z{ 0123456789 :	Logon
-    // @lengthOf(
-    ,
-    //	t
-    [ 0123456789, ""it's"" ]
-:
-int
-    , [""a	b"" , ""CRC32"" , 0, 4294967296 , """"	] :
-pack , 0 : u , } , match // @lengthOf(
-string_ as
-int
-{ 0: repeatCount [ ""abc""
-    ] : // " ++ [27880; 37322]%N ++ runes_of_ascii "
-float 007: msg_type , [
-    ""a\""b""	]:
-charz , } , i16 MetaDataX`say ""hi""`, repeat u `tab	here` , repeat falsey  { repeat i8 lengthOf `a\` ,
-    repeatCount@lengthOf( o)
-    `{ , }`,}, }packet rootA
-    { calculatedFrom//	t
-@calculatedFrom( ""x y"") ,
-char Pad @calculatedFrom( ""a\""b"" ) `" ++ [233]%N ++ runes_of_ascii "`
-    , @leftPad
-( '\x00' )	repeat float64 tag ,
-    // " ++ [27880; 37322]%N ++ runes_of_ascii "
-    @calculatedFrom( ""1"") repeat Foo ,  } // " ++ [27880; 37322]%N)).
+Eval vm_compute in ("<<<M1537>>>" ++ check (runes_of_ascii "packet metadata {
+    repeat f64 Foo,
+    repeat Logon f32a `
+    `,
+    @calculatedFrom(""1"")
+    repeat uint8 calculatedFrom `u8 x,`,
+    char[] packetx,// packet A { u8 x, }
+    @calculatedFrom(""abc"")
+    Pad @lengthOf(msg_type) `line1
+    line2`,
+    @rightPad(' ')
+    tag `" ++ [233]%N ++ runes_of_ascii "`,
+    @tag(10)
+    u8x @calculatedFrom(""CRC32""),
+    match metadata as msg_type {
+        [0123456789, ""\n""] : options1,
+        ""\n"" : float,
+    },
+}
+
+packet MetaDataX {
+    string string_ `doc`,
+    @rightPad('0')
+    zchar[00] zchar `a\`,
+}
+
+options {
+    leftPad = 0
+    float = 4294967296;
+}// `tick` ""quote"" 'q'
+
+root packet body {
+    @calculatedFrom(""1"")
+    @lengthOf(int)
+    match float as Z9_ {
+        // packet A { u8 x, }
+        // trailing space 
+        42 : x,
+        ""packet"" : matchKey,
+        """ ++ [28040; 24687]%N ++ runes_of_ascii """ : o,
+        255 : float,
+    },
+    @tag(0123456789)
+    match calculatedFrom as trueish {
+        [""packet"", ""`tick`"", """ ++ [233]%N ++ runes_of_ascii "t" ++ [233]%N ++ runes_of_ascii """] : MetaDataX,
+        4294967296 : trueish,
+        3 : i64_,
+        0123456789 : f32a,
+        [
+            7, 10, ""CRC32"", ""x y"", ""\n"",
+            ""CRC32"", ""`tick`""
+        ] : body,
+    },
+    char[1] Foo,
+    @rightPad(' ')
+    @calculatedFrom(""a	b"")
+    repeat string_ {
+        repeat Logon,
+        Z9_ i8i8,
+        match Z9_ as A {
+            [42] : Logon,
+            [
+                1, 4294967296, 0, ""CRC32"", ""a\""b"",
+                ""\" ++ [233]%N ++ runes_of_ascii """
+            ] : roots,
+            ""a\""b"" : MetaDataX,
+            255 : _x,
+            65535 : rootA,
+        },
+        match _x as Foo {
+            [255, """ ++ [28040; 24687]%N ++ runes_of_ascii """, ""CRC32"", """ ++ [233]%N ++ runes_of_ascii "t" ++ [233]%N ++ runes_of_ascii """, ""abc""] : len,
+            ""a\\"" : Pad,
+            0 : falsey,
+            3 : u128,
+        },// a // b
+    },
+    repeat options1 int `{ , }`,
+}")).
 Eval vm_compute in ("<<<M1939>>>" ++ check (runes_of_ascii "
 packet 	 // " ++ [128512]%N ++ runes_of_ascii " emoji
 
@@ -219,165 +214,150 @@ u8x
     string_`doc`, }
 
 ")).
-Eval vm_compute in ("<<<M8>>>" ++ check (runes_of_ascii "// @lengthOf(
-packet Pad { zchar[
-    0 ]Header @calculatedFrom(
-""a	b"" ) // " ++ [27880; 37322]%N ++ runes_of_ascii "
-`say ""hi""` , @calculatedFrom(
-    ""a\""b"" // a // b
-)  body @lengthOf( body// `tick` ""quote"" 'q'
-)`say ""hi""` , u16 stringy@lengthOf(
-    // trailing space 
-    trueish ) , @lengthOf( rootA) f64 Foo `say ""hi""` // c
-,u16 Z9_ , x_y_z , }
-    MetaData metadata { uint64 x , trueish chars//
-,
-    asx lengthOf `u8 x,`  ,
-} options { body // a // b
-=	""packet"" } root
-    packet MetaDataX {zchar[
-42	]
-a1
-,Packet x_y_z // " ++ [27880; 37322]%N ++ runes_of_ascii "
-, u8 Foo
-    `u8 x,` , u64
-//	t
-/// triple
-tag, @tag( 1 //x
-)  string x_y_z @calculatedFrom( ""x y"" ) ,f32 Logon	, _x ,charz // a // b
-{
-    rootA metadata `crlf
-line`
-    , Header @calculatedFrom( ""\" ++ [233]%N ++ runes_of_ascii """ ) `` ,
-i64_`line1
-line2`
-    // @lengthOf(
-    , } ,@lengthOf(
-a1// `tick` ""quote"" 'q'
-) string
-As	`doc`
-    , @tag(
-1 ) match As
-    as	trueish
-    //	t
-    {
-    [ ""`tick`""
-    // trailing space 
-    ] :charz,  ""packet"": asx , 42  :
-packetx, [ ""a\\"" ] :
-u }
-,
-}
-/// triple
-")).
-Eval vm_compute in ("<<<M1361>>>" ++ check (runes_of_ascii "options
-
-{  FixedStringPadFromLeft
-= true
-	;
-FixedStringPadChar = '0' ;}packet
-
-Leg{ repeat InSym93
-	{
-
-zchar[
-3
-]
-	Acct,
-string
-Side2 , i32 Flags
-    ,f32
-	Note ,i32 msgKind ,
-
-    }	, f64
-Note	, uint16	Px
-
-    , }
+Eval vm_compute in ("<<<M1324>>>" ++ check (runes_of_ascii "// top
+options
+    // c0
+{ LittleEndian
+    // c2
+= false
+    // c4
+;
+    // c5
+StringPrefixLenType
+    // c6
+=
+    // c7
+u8
+    // c8
+; // c9
+ArrayPrefixLenType // c10
+= // c11a
+  // c11b
+u64
+    // c12
+; // c13a
+  // c13b
+FixedStringPadFromLeft
+    // c14
+= false ;
+    // c17
+FixedStringPadChar // c18a
+  // c18b
+=
+    // c19
+' ' // c20a
+  // c20b
+; }
+    // c22
 packet
-	Quote {zchar[2] 
-OrderId	, 
-}
-	packet Ack{ repeat	string
-lastPx 
-, 
-zchar[4 
-]price , uint32 OrderId
-	,	Quote,
-
-    int8
-
-    Acct
-
-    ,
-
-} packet	Fill
-
-    {repeat
-    Leg
-    ,
-
-    @rightPad
-
-    (
-	'0' 
-)	char[
-
-11 ]	Note , 
-f64  Px ,
-
-@rightPad  (	'\x00'
-
-    )	char[  5
-] Flags 
-, 
-zchar[
-9]
-x
-
-    ,string 
-msgKind ,
-} root
-    packet Order	{	Leg , repeat Ack 
+    // c23
+Reject // c24a
+  // c24b
+{ // c25a
+  // c25b
+repeat char[ 4 ] // c29a
+  // c29b
+seqNo // c30
+, // c31
+string // c32
+Px
+    // c33
 ,
-@rightPad (
-    '\x00')
-char[
-3  ] Side2,
-
-    repeat
-    char[ 
-1
-]
-
-    seqNo
-
-,	u16
-
-    clOrdID
-    ,
-match
-    clOrdID
-
-as Body
-	{ 198 
-: Leg,
-
-    23
-:
-	Quote
-	, 13 
-:
-Ack ,159
-:
-	Fill
-,
-	}	,	u32	venue
-
-@calculatedFrom( 
-""CRC32"" 
+    // c34
+} root packet Trade // c38a
+  // c38b
+{ // c39a
+  // c39b
+@rightPad ( // c41
+'0' // c42
 )
-    ,
-
+    // c43
+char[
+    // c44
+2 // c45
+] msgKind // c47
+, // c48
+repeat
+    // c49
+f64
+    // c50
+price // c51a
+  // c51b
+, InAcct79
+    // c53
+{
+    // c54
+repeat // c55a
+  // c55b
+Reject
+    // c56
+,
+    // c57
+zchar[ // c58a
+  // c58b
+7 // c59
+] // c60a
+  // c60b
+OrderId
+    // c61
+,
+    // c62
+} // c63
+, // c64
+Reject // c65a
+  // c65b
+, // c66
+} ")).
+Eval vm_compute in ("<<<M107>>>" ++ check (runes_of_ascii "packet falsey { i64_ ,	charz  {
+match Packet  as Pad { ""\n"" :Packet
+    , ""// no comment"" // " ++ [128512]%N ++ runes_of_ascii " emoji
+:
+f32a// `tick` ""quote"" 'q'
+, [
+    /// triple
+    3  ,4294967296,
+    10 ,//
+7 , 10	]
+: u
+, // trailing space 
+""`tick`"": u8x
+,
+[ 7 , ""it's"" ]:Packet, 0 : len
+    //
+    , }
+    , }, /// triple
+@lengthOf(	f32a) char[ 3 ]options1
+    @lengthOf(
+Pad)
+, zchar[ 0123456789 ]// trailing space 
+T ``
+,
+} packet
+Pad
+{
+    // c
+    o roots `{ , }` // " ++ [128512]%N ++ runes_of_ascii " emoji
+, }packet f32a {
+_x//
+@calculatedFrom(	""x y"") //x
+,@tag( 65535
+) //	t
+char pack @lengthOf( zchar  ) ,repeat //
+int64 falsey  ,repeat len {match A
+    as rootA {[ 42,  ""\n"" ]:
+Z9_ , }
+,repeat i16
+A , repeat zchar[ 65535 ] tag `
+` ,
+f64 float
+    @lengthOf( f32a ) ``  ,
+// `tick` ""quote"" 'q'
+// packet A { u8 x, }
+} , x
+    u8x
+, @tag(  42	) repeat As Packet	, @lengthOf( Pad
+    )repeat
+    f64 rootA ,// @lengthOf(
 }")).
 Eval vm_compute in ("<<<M322>>>" ++ check (runes_of_ascii "packet leftPad { //
 i8 stringy @calculatedFrom( """ ++ [128512]%N ++ runes_of_ascii """	) , int@calculatedFrom(
@@ -564,33 +544,68 @@ root packet Cancel {
     },
     u16 count @calculatedFrom(""CRC32""),
 }")).
-Eval vm_compute in ("<<<M193>>>" ++ check (runes_of_ascii "
-root packet lengthOf{
-    char[ 3 ] Pad ,	@rightPad
-    (  '0'
-)
-    crc `doc` ,i32 //x
-uint8x
-,	zchar { match Logon  as int { [ 0 , """ ++ [233]%N ++ runes_of_ascii "t" ++ [233]%N ++ runes_of_ascii """] :o , ""// no comment"" :len ,
-} , asx
+Eval vm_compute in ("<<<M1235>>>" ++ check (runes_of_ascii "// top
+options
+    // c0
 {
-    //x
-    char[	10 ]
-u128 // a // b
-@lengthOf(  x_y_z)`say ""hi""`, }
-/// triple
-//
-, char[
-1 ] A, u// c
-chars
-    `` , }, repeat matchKey
-{ //x
-string trueish@calculatedFrom(
-    ""a	b""  )  , repeat
-    // packet A { u8 x, }
-    i8 msg_type `it's` ,	} , /// triple
+    // c1
+f32a
+    // c2
+=
+    // c3
+0
+    // c4
 }
-packet float { }")).
+    // c5
+packet
+    // c6
+trueish
+    // c7
+{
+    // c8
+}
+    // c9
+MetaData
+    // c10
+_x
+    // c11
+{
+    // c12
+char[
+    // c13
+0123456789
+    // c14
+]
+    // c15
+zchar
+    // c16
+,
+    // c17
+string
+    // c18
+crc
+    // c19
+,
+    // c20
+char[
+    // c21
+1
+    // c22
+]
+    // c23
+options1
+    // c24
+,
+    // c25
+uint8
+    // c26
+repeatCount
+    // c27
+,
+    // c28
+}
+    // c29
+")).
 Eval vm_compute in ("<<<M1140>>>" ++ check (runes_of_ascii "// top
 MetaData
     // c0
@@ -682,28 +697,50 @@ matchKey , f64 lengthOf	`a\` // @lengthOf(
     x_y_z // @lengthOf(
 , }
 ")).
-Eval vm_compute in ("<<<M1376>>>" ++ check (runes_of_ascii "options {
-    LittleEndian = true;
+Eval vm_compute in ("<<<M1799>>>" ++ check (runes_of_ascii "  options{ LittleEndian
+	=
+    true;	} packet
+
+Logon
+    {	u8 x 
+,
+
+    }
+
+packet
+
+Logout {
+
+u16
+reason,  }root  packet
+Frame
+
+    {
+    i8
+	Kind
+,i8 
+Kind2
+, match
+Kind
+as  Body{  1
+	: 
+Logon ,[2 ,
+3 ,4 
+] :
+Logout
+,	100: Logon	,
+
 }
-packet Logon {
-    u8 x,
-}
-packet Logout {
-    u16 reason,
-}
-root packet Frame {
-    i8 Kind,
-    i8 Kind2,
-    match Kind as Body {
-        1 : Logon,
-        [2, 3, 4] : Logout,
-        100 : Logon,
-    },
-    match Kind2 as Trailer {
-        0 : Logout,
-    },
-}
-")).
+    ,
+	match
+Kind2 as Trailer{ 0
+:
+Logout
+
+,
+
+    }
+, }")).
 Eval vm_compute in ("<<<M222>>>" ++ check (runes_of_ascii "packet
 body// @lengthOf(
 { @lengthOf(
